@@ -118,6 +118,7 @@ func remoteAckOf(c *eng.Ctx, f *ssa.Function) (eng.Site, func(ssa.Value) bool, f
 
 func runC08(c *eng.Ctx) {
 	p := c.P
+	c.Rule("PASS", qT+".SetAppendedSeq{appended = acknowledged = seq on every path}", func() { resetLeavesEmptyQueue(c) }) // C08-m21: shared with C05/C06
 	handshakeBaselineIsTheGroupAck(c)
 	livenessRecheckedAfterTheSuspendMark(c)
 	rewindOnlyWithinWhatTheLeaderHolds(c)
